@@ -1,0 +1,32 @@
+//go:build verif
+
+package apk
+
+import "context"
+
+// Wrappers for the verification harness of properties C04 / C05 (build tag
+// verif only). They add no behaviour.
+
+func verifC04Opts(options []IndexOption) *indexOpts {
+	opts := &indexOpts{}
+	for _, opt := range options {
+		opt(opts)
+	}
+	return opts
+}
+
+// VerifC04ParseRepositoryIndex exposes parseRepositoryIndex with the options
+// applied the way GetRepositoryIndexes applies them.
+func VerifC04ParseRepositoryIndex(ctx context.Context, u string, keys map[string][]byte, arch string, b []byte, options ...IndexOption) (*APKIndex, error) {
+	return parseRepositoryIndex(ctx, u, keys, arch, b, verifC04Opts(options))
+}
+
+// VerifC04ShouldCheckSignature exposes shouldCheckSignatureForIndex.
+func VerifC04ShouldCheckSignature(index, arch string, options ...IndexOption) bool {
+	return shouldCheckSignatureForIndex(index, arch, verifC04Opts(options))
+}
+
+// VerifC04SignatureFileSubmatch exposes signatureFileRegex.FindStringSubmatch.
+func VerifC04SignatureFileSubmatch(name string) []string {
+	return signatureFileRegex.FindStringSubmatch(name)
+}
